@@ -2,7 +2,7 @@
 //! twin; outcome classes, snapshots, handle results and stream item sequences must be equal —
 //! independently of how often futures and streams return Pending (a `PendingFs` wrapper around
 //! every async leaf injects `Poll::Pending` at seed-chosen await points and stream polls).
-use crate::tree_stream::{build_cfg, gen_op, parse_snap, project, Op, TreeSpec, Who, UNIVERSE};
+use crate::tree_stream::{build_cfg, gen_op, parse_snap, project, Op, TreeSpec, Who, universe};
 use crate::util::*;
 use crate::world::{enc_content, enc_list_sorted, enc_res, RWorld};
 use async_trait::async_trait;
@@ -146,6 +146,70 @@ impl AsyncFileSystem for PendingFs {
     }
 }
 
+/// async twin of `wrappers::GhostFs`
+#[derive(Debug)]
+pub struct GhostAsyncFs {
+    inner: Arc<dyn AsyncFileSystem>,
+    dir: String,
+    name: String,
+}
+
+#[async_trait]
+impl AsyncFileSystem for GhostAsyncFs {
+    async fn read_dir(&self, path: &str) -> VfsResult<Box<dyn Unpin + Stream<Item = String> + Send>> {
+        let s = self.inner.read_dir(path).await?;
+        if path == self.dir {
+            let mut v: Vec<String> = s.collect().await;
+            v.insert(v.len() / 2, self.name.clone());
+            Ok(Box::new(futures::stream::iter(v)))
+        } else {
+            Ok(s)
+        }
+    }
+    async fn create_dir(&self, path: &str) -> VfsResult<()> {
+        self.inner.create_dir(path).await
+    }
+    async fn open_file(&self, path: &str) -> VfsResult<Box<dyn SeekAndRead + Send + Unpin>> {
+        self.inner.open_file(path).await
+    }
+    async fn create_file(&self, path: &str) -> VfsResult<Box<dyn async_std::io::Write + Send + Unpin>> {
+        self.inner.create_file(path).await
+    }
+    async fn append_file(&self, path: &str) -> VfsResult<Box<dyn async_std::io::Write + Send + Unpin>> {
+        self.inner.append_file(path).await
+    }
+    async fn metadata(&self, path: &str) -> VfsResult<VfsMetadata> {
+        self.inner.metadata(path).await
+    }
+    async fn set_creation_time(&self, path: &str, time: SystemTime) -> VfsResult<()> {
+        self.inner.set_creation_time(path, time).await
+    }
+    async fn set_modification_time(&self, path: &str, time: SystemTime) -> VfsResult<()> {
+        self.inner.set_modification_time(path, time).await
+    }
+    async fn set_access_time(&self, path: &str, time: SystemTime) -> VfsResult<()> {
+        self.inner.set_access_time(path, time).await
+    }
+    async fn exists(&self, path: &str) -> VfsResult<bool> {
+        self.inner.exists(path).await
+    }
+    async fn remove_file(&self, path: &str) -> VfsResult<()> {
+        self.inner.remove_file(path).await
+    }
+    async fn remove_dir(&self, path: &str) -> VfsResult<()> {
+        self.inner.remove_dir(path).await
+    }
+    async fn copy_file(&self, src: &str, dest: &str) -> VfsResult<()> {
+        self.inner.copy_file(src, dest).await
+    }
+    async fn move_file(&self, src: &str, dest: &str) -> VfsResult<()> {
+        self.inner.move_file(src, dest).await
+    }
+    async fn move_dir(&self, src: &str, dest: &str) -> VfsResult<()> {
+        self.inner.move_dir(src, dest).await
+    }
+}
+
 /// the async twin of `RWorld`: same protocol lines, async types
 pub struct AWorld {
     scratch: std::path::PathBuf,
@@ -243,6 +307,13 @@ impl AWorld {
                 set_at(&mut self.roots, us(id), Some(AsyncVfsPath::new(PendingFs { inner: obj, pends: Arc::new(Pends { state: AtomicU64::new(0), max: 0, injected: AtomicU64::new(0) }) })));
                 "ok".into()
             }
+            ["fs", id, "ghost", l, dir, name] => {
+                // the ghost sits ABOVE the pending wrapper of the leaf: metadata of the ghost entry
+                // first returns Pending (when injected) and then fails
+                let obj = self.leaves[us(l)].clone();
+                set_at(&mut self.roots, us(id), Some(AsyncVfsPath::new(GhostAsyncFs { inner: obj, dir: dec_str(dir), name: dec_str(name) })));
+                "ok".into()
+            }
             ["fs", id, "alt", inner, p] => {
                 let r = self.root(us(inner)).join(dec_str(p)).expect("bad altroot path");
                 set_at(&mut self.roots, us(id), Some(AsyncVfsPath::new(AsyncAltrootFS::new(r))));
@@ -325,6 +396,11 @@ impl AWorld {
                                 let mut items = vec![];
                                 let mut w = q.walk_dir().await?;
                                 while let Some(it) = w.next().await {
+                                    if items.len() > 5000 {
+                                        // a traversal of a finite tree that does not end
+                                        items.push("!!walk-does-not-terminate".to_string());
+                                        break;
+                                    }
                                     items.push(match it {
                                         Ok(p) => enc_str(p.as_str()),
                                         Err(e) => format!("!{}:{}", kind_name(e.kind()), if e.path() == PLACEHOLDER { "-".to_string() } else { enc_str(e.path()) }),
@@ -430,11 +506,11 @@ pub fn run(o: &Opts) -> Report {
     let mut rep = Report::new("async");
     let mut rng = Rng::new(o.seed ^ 0xa57);
     let rt = tokio::runtime::Builder::new_current_thread().build().unwrap();
-    let configs = ["mem", "phys", "alt(mem)", "alt(phys)", "ovl(mem,mem)", "ovl(mem,mem,mem)", "ovl(phys,mem)", "alt(ovl(mem,mem))", "ovl(alt,alt)"];
+    let configs = ["mem", "phys", "alt(mem)", "alt(phys)", "ovl(mem,mem)", "ovl(mem,mem,mem)", "ovl(phys,mem)", "alt(ovl(mem,mem))", "ovl(alt,alt)", "ghost(mem)", "ghost(phys)", "alt(ghost(mem))"];
     let drivers = ["tokio", "async-std", "futures"];
     let (n_runs, n_ops) = if o.thorough() { (24, 50) } else { (4, 25) };
     let ts = TreeSpec { prop: "C15".into(), configs: vec![], corr_level: 1, spec_results: false, spec_snapshots: false, wrong_type_calls: true, root_calls: false, composite_ops: true, time_ops: false, preds: vec![] };
-    let uni: String = UNIVERSE.iter().map(|p| enc_str(p)).collect::<Vec<_>>().join(" ");
+    let uni: String = universe().iter().map(|p| enc_str(p)).collect::<Vec<_>>().join(" ");
     let mut sworld = RWorld::new(&o.scratch);
     let mut total_pend = 0u64;
     for cfg_kind in configs {
@@ -443,7 +519,22 @@ pub fn run(o: &Opts) -> Report {
         for r in 0..reps {
             let driver = drivers[r % drivers.len()];
             let max_pending = [0u32, 1, 3][(r / drivers.len()) % 3];
-            let cfg = build_cfg(cfg_kind, &mut rng);
+            let cfg = if cfg_kind.contains("ghost") {
+                // a leaf whose listing of one directory contains a name that nothing else knows
+                let gdir = *rng.pick(&["", "/a", "/c", "/a/a"][..]);
+                let mk = |t: String| crate::tree_stream::Line { who: Who::Both, text: t, step: usize::MAX, role: "cfg" };
+                let mut lines = vec![mk(format!("leaf {}", if cfg_kind.contains("phys") { "phys" } else { "mem" })), mk("fs 0 leaf 0".into())];
+                if cfg_kind.starts_with("alt") {
+                    lines.push(mk(format!("op 0 create_dir_all {}", enc_str("/r/s"))));
+                    lines.push(mk(format!("fs 1 ghost 0 {} {}", enc_str(&format!("/r/s{}", gdir)), enc_str("zz"))));
+                    lines.push(mk(format!("fs 2 alt 1 {}", enc_str("/r/s"))));
+                } else {
+                    lines.push(mk(format!("fs 1 ghost 0 {} {}", enc_str(gdir), enc_str("zz"))));
+                }
+                crate::tree_stream::Cfg { name: cfg_kind.to_string(), lines, target: if cfg_kind.starts_with("alt") { 2 } else { 1 }, spec: 0, overlay_upper: None, kind: cfg_kind.to_string() }
+            } else {
+                build_cfg(cfg_kind, &mut rng)
+            };
             if let Ok(only) = std::env::var("VH_ONLY") {
                 if only != format!("{}:{}", cfg_kind, driver) {
                     continue;
